@@ -112,12 +112,17 @@ pub fn run(ctx: &Ctx) {
             writeln!(f, "{}", json!({"id": cases.len() + k, "test_cases": hist_input, "flags": [], "ops": ops})).unwrap();
         }
         let mut id = cases.len() + histories.len();
-        for sp in [json!({"special": "empty_list"}), json!({"special": "empty_list_classmethod"}),
-                   json!({"special": "minrep", "value": 0}), json!({"special": "minrep", "value": -1}), json!({"special": "minrep", "value": 3}),
-                   json!({"special": "minlen", "value": 0}), json!({"special": "minlen", "value": -1}), json!({"special": "minlen", "value": 3})] {
+        let mut sps = vec![json!({"special": "empty_list"}), json!({"special": "empty_list_classmethod"})];
+        // threshold arguments over the whole i32 range: the extremes, the values around zero, ordinary and huge ones;
+        // a positive value must be accepted and build() must then equal the library's result for that threshold
+        for val in [0i64, -1, -2, -1000, i32::MIN as i64, 1, 2, 3, 7, 1000, 65536, i32::MAX as i64 - 1, i32::MAX as i64] {
+            sps.push(json!({"special": "minrep", "value": val}));
+            sps.push(json!({"special": "minlen", "value": val}));
+        }
+        for sp in sps {
             let mut v = sp.clone();
             v["id"] = json!(id);
-            v["test_cases"] = json!(["a"]);
+            v["test_cases"] = json!(["aaaaaaaa", "abababab", "xyzxyz"]);
             v["flags"] = json!([]);
             writeln!(f, "{}", v).unwrap();
             specials.push(v);
@@ -264,7 +269,11 @@ pub fn run(ctx: &Ctx) {
         let positive = sp.get("value").and_then(|v| v.as_i64()).map_or(false, |v| v > 0);
         let want_msg = msgs.iter().find(|(n, _)| *n == kind).unwrap().1;
         let ok = if positive {
-            r.get("error").is_none()
+            let val = sp["value"].as_i64().unwrap() as u32;
+            let t: Vec<String> = sp["test_cases"].as_array().unwrap().iter().map(|x| x.as_str().unwrap().to_string()).collect();
+            let c = if kind == "minrep" { Cfg::with(R, val, 1) } else { Cfg::with(R, 1, val) };
+            let expect = c.build(&t).map(|l| to_python(&l)).unwrap_or_default();
+            r.get("error").is_none() && r["out"].as_str() == Some(expect.as_str())
         } else {
             r["error"]["type"] == json!("ValueError") && r["error"]["msg"] == json!(want_msg)
         };
